@@ -193,3 +193,11 @@ Proof.
   destruct z as [a b]. unfold cpps_series, cconj, cZ, cofr, cadd, csub, cmul, cdiv, cnorm2, c1; cbn.
   f_equal; unfold Rdiv; ring.
 Qed.
+
+Lemma cpps_conj z : cpps ROps (cconj ROps z) = cconj ROps (cpps ROps z).
+Proof.
+  destruct z as [a b]. unfold cpps.
+  assert (cabs ROps (cconj ROps (a, b)) = cabs ROps (a, b)) as ->.
+  { unfold cabs, cnorm2, cconj; cbn. f_equal. ring. }
+  destruct (oltb ROps _ _); [apply cpps_series_conj | apply cpps_closed_conj].
+Qed.
